@@ -32,16 +32,26 @@ func TmplViewWit() []byte {
 		a.Op(vm.ADDRESS).Push(4).Op(vm.MSTORE)
 		a.Push(32).Push(out).Push(36).Push(0).Push(0).Op(vm.CALLDATALOAD).Op(vm.GAS, vm.STATICCALL, vm.POP)
 	}
-	view("rewardsOf(address)", 0x40)
+	view("rewardsOf(address)", 0x1e0) // r1, logged
 	view("balanceOf(address)", 0x40)
+	// without action data: transfer(this, SELFBALANCE + r1/2) - an amount only the pending rewards can cover
+	a.Push(32).Op(vm.CALLDATASIZE, vm.GT).PushLabel("given").Op(vm.JUMPI)
+	a.Push(Selector("transfer(address,uint256)")).Push(0xe0).Op(vm.SHL).Push(0x100).Op(vm.MSTORE)
+	a.Op(vm.ADDRESS).Push(0x104).Op(vm.MSTORE)
+	a.Push(2).Push(0x1e0).Op(vm.MLOAD, vm.DIV, vm.SELFBALANCE, vm.ADD).Push(0x124).Op(vm.MSTORE)
+	a.Push(0).Push(0).Push(0x44).Push(0x100).Push(0).Push(0).Op(vm.CALLDATALOAD).Op(vm.GAS, vm.CALL)
+	a.Push(0x200).Op(vm.MSTORE)
+	a.PushLabel("after").Op(vm.JUMP)
+	a.Label("given")
 	a.Push(32).Op(vm.CALLDATASIZE, vm.SUB)                      // insize
 	a.Op(vm.DUP1).Push(32).Push(0x100).Op(vm.CALLDATACOPY)     // insize
 	a.Push(0).Push(0).Op(vm.DUP3).Push(0x100).Push(0).Push(0).Op(vm.CALLDATALOAD).Op(vm.GAS, vm.CALL)
 	a.Push(0x200).Op(vm.MSTORE, vm.POP)
+	a.Label("after")
 	view("rewardsOf(address)", 0x220)
 	view("balanceOf(address)", 0x240)
 	view("totalDelegationOf(address)", 0x260)
-	a.Push(viewWitTopic).Push(0x80).Push(0x200).Op(vm.LOG1, vm.STOP)
+	a.Push(viewWitTopic).Push(0xa0).Push(0x1e0).Op(vm.LOG1, vm.STOP) // r1 | success | rewardsOf | balanceOf | totalDelegationOf
 	return a.Bytes()
 }
 
@@ -50,6 +60,9 @@ func opViewWit(w *World, op *Op) {
 	stk, ok := w.ResolveAddr("staking")
 	vw, ok2 := w.Labels["vw"]
 	md, ok3 := pcMethods["staking"][op.Mut]
+	if op.Mut == "transfer_covered_by_rewards" {
+		ok3 = true
+	}
 	if !ok || !ok2 || !ok3 || md.Dyn {
 		return
 	}
@@ -63,7 +76,10 @@ func opViewWit(w *World, op *Op) {
 			args = append(args, relNum(a, new(big.Int), "_"))
 		}
 	}
-	data := append(Word(stk), CallData(md.Sig, args...)...)
+	data := Word(stk)
+	if op.Mut != "transfer_covered_by_rewards" {
+		data = append(data, CallData(md.Sig, args...)...)
+	}
 	eop := Op{K: "eth", W: op.W, To: vw.Hex(), Data: hex.EncodeToString(data), Gas: "i+6000000", Price: op.Price}
 	s := w.BuildEthOp(&eop)
 	s.Meta = map[string]string{"vw": op.Mut}
@@ -95,9 +111,11 @@ func c11ViewWitness(w *World) {
 		return
 	}
 	var words []byte
+	r1 := new(big.Int)
 	for _, l := range t.Rc.Receipt.Logs {
-		if l.Address == vw && len(l.Topics) == 1 && l.Topics[0] == viewWitTopic && len(l.Data) == 0x80 {
-			words = l.Data
+		if l.Address == vw && len(l.Topics) == 1 && l.Topics[0] == viewWitTopic && len(l.Data) == 0xa0 {
+			words = l.Data[32:]
+			r1 = new(big.Int).SetBytes(l.Data[:32])
 		}
 	}
 	if words == nil {
@@ -130,6 +148,16 @@ func c11ViewWitness(w *World) {
 	r.Count("o:c11_view_witness_checked")
 	r.Probe("view_witness_after_successful_"+action, okAction)
 	r.Probe("view_witness_with_rewards_before_action", natT.Sign() > 0 || (okAction && (action == "withdrawRewards" || action == "withdrawReward")))
+	if action == "transfer_covered_by_rewards" {
+		// transfer() withdraws the pending rewards first (each validator's share above the documented minimum of a
+		// thousandth of a coin) and then stakes the amount: with at least one whole coin pending, half of the rewards
+		// on top of the liquid balance is covered whatever the split over validators
+		oneCoin := new(big.Int).Exp(big.NewInt(10), big.NewInt(18), nil)
+		r.Probe("staking_transfer_needing_pending_rewards_judged", r1.Cmp(oneCoin) >= 0)
+		if r1.Cmp(oneCoin) >= 0 && !okAction {
+			r.Violate("C11", "transfer_refused_although_covered_by_pending_rewards", nil, "transfer(self, liquid balance + half of the pending rewards %s) was refused; withdrawing the rewards and delegating the amount natively succeeds", r1)
+		}
+	}
 	disc := map[string]string{"after": action, "action_succeeded": map[bool]string{true: "true", false: "false"}[okAction]}
 	if got := words[32:64]; !bytes.Equal(got, Word(natT)) {
 		disc["view"] = "rewardsOf"
